@@ -275,6 +275,86 @@ func runRegScale(n, k int) (string, *fw.OracleFailure) {
 	return res, orc
 }
 
+// runRegBlock: the manager goroutine is kept busy for several seconds (it hands a command to a terminal whose queue is
+// full and whose writer sits in a slow write callback) while another terminal connects. Its join has to wait — and must
+// then succeed: the heartbeat is answered, a command for it is routed to it, and after it leaves the key is free again.
+func runRegBlock(slowMs int) (string, *fw.OracleFailure) {
+	srv, err := sysServer("-slow-write-ms", strconv.Itoa(slowMs))
+	if err != nil {
+		return "server-start-failed", &fw.OracleFailure{Sig: "server/start", Msg: err.Error()}
+	}
+	defer sysStopAll()
+	fail := func(sig, msg string) (string, *fw.OracleFailure) {
+		return "scenario-failed:" + sig, &fw.OracleFailure{Sig: sig, Msg: msg}
+	}
+	pa, pb := actNextPhone(), actNextPhone()
+	a, err := sock.Dial(srv.Addr())
+	if err != nil {
+		return fail("server/refuses-connection", err.Error())
+	}
+	defer a.Close()
+	_ = a.Send(frames.Build(frames.H{ID: 0x0002, Phone: pa, Serial: 1}, nil))
+	if fs := a.ReadFrames(1, 3*time.Second); len(fs) < 1 {
+		return fail("registry/join-unanswered", "the first terminal got no reply to its heartbeat")
+	}
+	// A's writer now sleeps in the write callback; five commands: three fill its queue, the manager blocks on the fourth
+	for i := 0; i < 5; i++ {
+		_ = srv.Command(fmt.Sprintf("send blk%d %s %d 00 %d", i, phoneStr(pa), 0x8103, 1000))
+	}
+	time.Sleep(300 * time.Millisecond)
+	b, err := sock.Dial(srv.Addr())
+	if err != nil {
+		return fail("server/refuses-connection", err.Error())
+	}
+	_ = b.Send(frames.Build(frames.H{ID: 0x0002, Phone: pb, Serial: 1}, nil))
+	joined, routed := 0, 0
+	if fs := b.ReadFrames(1, time.Duration(3*slowMs+3000)*time.Millisecond); len(fs) >= 1 {
+		joined = 1
+	}
+	if joined == 1 {
+		_ = srv.Command(fmt.Sprintf("send blkb %s %d 00 %d", phoneStr(pb), 0x8103, 1000))
+		if fs := b.ReadFrames(1, time.Duration(3*slowMs+3000)*time.Millisecond); len(fs) >= 1 {
+			if h, _, ok := frames.Parse(fs[0]); ok && h.ID == 0x8103 {
+				routed = 1
+			}
+		}
+	}
+	b.Close()
+	// after it has left: its key is free — a command for it is refused as not online, and it can join again
+	time.Sleep(time.Duration(slowMs+500) * time.Millisecond)
+	mark := srv.Len()
+	_ = srv.Command(fmt.Sprintf("send blkgone %s %d 00 %d", phoneStr(pb), 0x8103, 500))
+	after := "pending"
+	if e, _, ok := srv.WaitForFrom(mark, func(e sock.Event) bool { return sock.Str(e, "event") == "active-result" && sock.Str(e, "tag") == "blkgone" }, time.Duration(2*slowMs+3000)*time.Millisecond); ok {
+		if sock.Bool(e, "isNotExist") {
+			after = "noexist"
+		} else {
+			after = "other"
+		}
+	}
+	rejoin := 0
+	if b2, err := sock.Dial(srv.Addr()); err == nil {
+		_ = b2.Send(frames.Build(frames.H{ID: 0x0002, Phone: pb, Serial: 5}, nil))
+		if fs := b2.ReadFrames(1, time.Duration(2*slowMs+3000)*time.Millisecond); len(fs) >= 1 {
+			rejoin = 1
+		}
+		b2.Close()
+	}
+	res := fmt.Sprintf("joined=%d routed=%d after=%s rejoin=%d", joined, routed, after, rejoin)
+	var orc *fw.OracleFailure
+	if joined == 1 && routed == 1 && after != "noexist" {
+		orc = &fw.OracleFailure{Sig: "registry/key-not-freed", Msg: fmt.Sprintf("a terminal joined while the session manager was busy for about %d ms and left again; a command for its key afterwards came back as %q instead of not-online", slowMs, after)}
+	} else if joined == 1 && routed == 1 && rejoin != 1 {
+		orc = &fw.OracleFailure{Sig: "registry/key-not-freed", Msg: "a terminal that joined while the session manager was busy, and left, could not join again"}
+	}
+	if joined != 1 {
+		orc = &fw.OracleFailure{Sig: "registry/join-unanswered", Msg: fmt.Sprintf("a terminal that connected while the session manager was busy for about %d ms (handing a command to a terminal with a full queue) never got its first heartbeat answered", slowMs)}
+	} else if routed != 1 {
+		orc = &fw.OracleFailure{Sig: "registry/route-to-owner", Msg: "a command for the terminal that joined while the manager was busy did not reach it"}
+	}
+	return res, orc
+}
+
 func runRegRace(n, rounds int) (string, *fw.OracleFailure) {
 	srv, err := sysServer()
 	if err != nil {
@@ -405,6 +485,7 @@ var C11 = &fw.Prop{ID: "C11",
 			emit(fw.Case{Op: "regrace", Args: []string{strconv.Itoa(2 + r.Intn(7)), "25"}})
 		}
 		// many terminals online at once, most of them leave: the registry still knows exactly the ones that stayed
+		emit(fw.Case{Op: "regblock", Args: []string{"4500"}})
 		emit(fw.Case{Op: "regscale", Args: []string{"60", "7"}})
 		emit(fw.Case{Op: "regscale", Args: []string{"1100", "200"}})
 		if tier == "thorough" {
@@ -413,6 +494,12 @@ var C11 = &fw.Prop{ID: "C11",
 		}
 	},
 	Exec: func(c fw.Case) string {
+		if c.Op == "regblock" {
+			ms, _ := strconv.Atoi(c.Args[0])
+			res, o := runRegBlock(ms)
+			regLast.key, regLast.orc = "block "+c.Args[0], o
+			return res
+		}
 		if c.Op == "regscale" {
 			n, _ := strconv.Atoi(c.Args[0])
 			k, _ := strconv.Atoi(c.Args[1])
@@ -432,6 +519,16 @@ var C11 = &fw.Prop{ID: "C11",
 		return res
 	},
 	Oracle: func(c fw.Case) *fw.OracleFailure {
+		if c.Op == "regblock" {
+			if regLast.key == "block "+c.Args[0] {
+				o := regLast.orc
+				regLast.key = ""
+				return o
+			}
+			ms, _ := strconv.Atoi(c.Args[0])
+			_, o := runRegBlock(ms)
+			return o
+		}
 		if c.Op == "regscale" {
 			if regLast.key == "scale "+strings.Join(c.Args, " ") {
 				o := regLast.orc
